@@ -727,37 +727,6 @@ func judgeTotals(c Case, o *vh.Obs) {
 	if !unchanged("merge-alters-operand", "Merge") {
 		return
 	}
-	// precise figures of the merged summary: the exact sum of the operands'
-	// precise figures, or (no precise figure kept) the presented one.
-	{
-		ps := zeroDec(exp)
-		pa := map[string]dec{}
-		for _, t := range ops {
-			ps = addDec(ps, amtDec(t.PreciseSum()))
-			for _, ct := range t.Categories {
-				if x, ok := pa[string(ct.Code)]; ok {
-					pa[string(ct.Code)] = addDec(x, amtDec(ct.PreciseAmount()))
-				} else {
-					pa[string(ct.Code)] = amtDec(ct.PreciseAmount())
-				}
-			}
-		}
-		for _, r := range []*tax.Total{r1, r2, r3} {
-			got := amtDec(r.PreciseSum())
-			if !sameValue(got, ps) && !sameValue(got, amtDec(r.Sum)) {
-				o.Failf("merge:precise-sum", "merged PreciseSum() = %s, operands' precise sums add to %s, presented sum is %s", got, ps, amtDec(r.Sum))
-				return
-			}
-			for _, ct := range r.Categories {
-				got := amtDec(ct.PreciseAmount())
-				if !sameValue(got, pa[string(ct.Code)]) && !sameValue(got, amtDec(ct.Amount)) {
-					o.Failf("merge:precise-amount", "merged category %s PreciseAmount() = %s, operands' precise amounts add to %s, presented amount is %s", ct.Code, got, pa[string(ct.Code)], amtDec(ct.Amount))
-					return
-				}
-			}
-		}
-	}
-
 	// ---- Negate, double negation, zero law, Clone
 	negs := make([]*tax.Total, n)
 	zeros := make([]*tax.Total, n)
@@ -1795,6 +1764,7 @@ func init() {
 		"operands of different currency precision are not generated (the receiver's precision would win); products beyond 2^52 units are discarded (C05 domain)",
 		"row order and the key label of a merged group are free (any operand's label is accepted); percent pointers and extension maps shared between a result and its operands are not written through",
 		"the payment tax summary is compared with the line summaries of the same output, so recalculation of a line summary itself (C02/C04) is not judged here",
+		"PreciseSum() / PreciseAmount() are judged on operands (unchanged), on negations and on t.Merge(t.Negate()); those of other merged summaries are not (nothing in the JSON shows them, and a zero precise figure is indistinguishable from an unset one)",
 	)
 	vh.Rapid("totals", 30_000, 2_400_000, genCase, judgeTotals)
 	vh.Rapid("payments", 30_000, 1_600_000, genPayment, judgePayment)
